@@ -47,7 +47,7 @@ func selfArgs(out string, stub bool) []string {
 
 func checkC19(c *Ctx) error {
 	w := c.W
-	c.Rule = "self-hosting fixpoint replay: generation g regenerates internal/gontainer/gontainer.go with the tool built from generation g-1 (g=0: the checked-in file), compared byte for byte modulo the `// gontainer version:` line; generation 0 runs an unstamped build, generations 1 and 2 are rebuilt with the Makefile's ldflags stamps (clean, then dirty tree), generation 1 from the Makefile's file list `main.go`, generation 2 from the package; regeneration happens in place like `make self-compile`; the final tree is also built with release stamps (.goreleaser.yaml ldflags, versions with and without the v prefix, other major/minor numbers, pre-release and build metadata) and each such binary regenerates once; failing in-place attempts (a file forgotten, a broken extra file, a file matched twice) leave the checked-in container untouched; the configuration is also reached through a linked directory, per-file links, copies, absolute paths and redundant path elements; each (generation, repetition) comparison is one case, distinct by (generation, repetition)"
+	c.Rule = "self-hosting fixpoint replay: generation g regenerates internal/gontainer/gontainer.go with the tool built from generation g-1 (g=0: the checked-in file), compared byte for byte modulo the `// gontainer version:` line; generation 0 runs an unstamped build, generations 1 and 2 are rebuilt with the Makefile's ldflags stamps (clean, then dirty tree), generation 1 from the Makefile's file list `main.go`, generation 2 from the package; regeneration happens in place like `make self-compile`; the final tree is also built with release stamps (.goreleaser.yaml ldflags, versions with and without the v prefix, other major/minor numbers, pre-release and build metadata) and each such binary regenerates once; failing in-place attempts (a file forgotten, a broken extra file, a file matched twice) leave the checked-in container untouched; the patterns are also given in other orders and groupings (wildcard first, one per file, reversed, rotated, one wildcard); the configuration is also reached through a linked directory, per-file links, copies, absolute paths and redundant path elements; each (generation, repetition) comparison is one case, distinct by (generation, repetition)"
 	c.Assumptions = []string{"Makefile self-compile arguments are the intended self configuration", "go build of the scratch copy is faithful to /repo's working tree"}
 	gens := 3
 	reps := c.Pick(2, 10)
@@ -256,6 +256,43 @@ func checkC19(c *Ctx) error {
 			got, _ := os.ReadFile(out)
 			if run.Res.Exit != 0 || normGen(got) != want {
 				c.Violate("self-config-layout:"+l.name, fmt.Sprintf("the self configuration reached as %q (%v): exit %d, output equal to the checked-in file: %v\n%s\n%s", l.name, args, run.Res.Exit, normGen(got) == want, rejectReason2(run), firstDiff(want, normGen(got))), nil)
+			}
+		}
+	}
+	// the files of the self configuration declare disjoint things (one file holds the meta section, one the only decorator,
+	// every service lives in one file): whatever the order and grouping of the patterns, the merged configuration is the same
+	{
+		src := filepath.Join(w.Repo, "internal/gontainer")
+		ns, _ := filepath.Glob(filepath.Join(src, "gontainer*.yaml"))
+		var rel []string
+		for _, n := range ns {
+			rel = append(rel, "internal/gontainer/"+filepath.Base(n))
+		}
+		rev := append([]string{}, rel...)
+		for i, j := 0, len(rev)-1; i < j; i, j = i+1, j-1 {
+			rev[i], rev[j] = rev[j], rev[i]
+		}
+		rot := append(append([]string{}, rel[len(rel)/2:]...), rel[:len(rel)/2]...)
+		orders := map[string][]string{
+			"wildcard-first":       {"internal/gontainer/gontainer_*.yaml", "internal/gontainer/gontainer.yaml"},
+			"one-pattern-per-file": rel,
+			"reverse-order":        rev,
+			"rotated-order":        rot,
+			"single-wildcard":      {"internal/gontainer/gontainer*.yaml"},
+		}
+		for name, pats := range orders {
+			out := filepath.Join(w.TempDir("c19p"), "gontainer.go")
+			args := []string{"build"}
+			for _, p := range pats {
+				args = append(args, "-i", p)
+			}
+			args = append(args, "-o", out)
+			run := cli.Do(w, bin, nil, w.Repo, out, args...)
+			c.Eval("pattern-order/"+name, true)
+			c.Add("pattern_orders_of_the_self_configuration", 1)
+			got, _ := os.ReadFile(out)
+			if run.Res.Exit != 0 || normGen(got) != want {
+				c.Violate("self-config-pattern-order:"+name, fmt.Sprintf("the self configuration given as %v: exit %d, output equal to the checked-in file: %v\n%s\n%s", pats, run.Res.Exit, normGen(got) == want, rejectReason2(run), firstDiff(want, normGen(got))), nil)
 			}
 		}
 	}
